@@ -252,8 +252,13 @@ theorem execS_assignSub (fuel : Nat) (n : String) (ix e : X.Expr) (σ : X.St) (h
         rw [hs.2.2.2.1] at st1
         -- the array
         have rep1' : Rep K s2 mem1 := (rep1.same hs1).same hs2
-        obtain ⟨id, ad, hid, hloc, hlt, hptr⟩ := rep1'.aptr n r (arrayOf_ok _ _ _ _ harr)
+        obtain ⟨ad, hloc, hlt, hptr0⟩ := rep1'.aptr n r (arrayOf_ok _ _ _ _ harr)
+        obtain ⟨id, hid⟩ : ∃ id, r = .glob id := by
+          cases r with
+          | glob id => exact ⟨id, rfl⟩
+          | lit ws => simp [X.arrSet] at hset
         subst hid
+        have hptr : mem1.read ad = BitVec.ofNat 32 (K.abase id) := hptr0
         obtain ⟨cells, hc, h0, h1', hσ''⟩ := arrSet_glob s2 σ'' id iv w hset
         obtain ⟨hcsz, _⟩ := rep1'.acells id cells hc
         have hidx : iv.toInt.toNat < K.asize id := by omega
